@@ -76,10 +76,13 @@ M2 == M("Remove", "DELETE", "id", "rm", FALSE)
 M3 == M("Fetch", "GET", "id", "fetch", TRUE)
 M4 == M("Change", "PUT", "plain", "change", TRUE)
 M5 == M("Touch", "PATCH", "id", "touch", TRUE)
-Cm(n, suf, bp, ms) == [name |-> n, suffixed |-> suf, basePath |-> bp, methods |-> ms]
+Cm(n, suf, bp, ms) == [name |-> n, suffixed |-> suf, basePath |-> bp, methods |-> ms, opts |-> FALSE]
+\* the block sets service options of its own (options.audience): the entity annotation lives in the same options message
+CmO(n, suf, bp, ms) == [Cm(n, suf, bp, ms) EXCEPT !.opts = TRUE]
 CmdNames == {<<"", FALSE>>, <<"Other", FALSE>>, <<"AuxCommand", TRUE>>}
 CmdsFull == {Cm(n[1], n[2], bp, ms) : n \in CmdNames, bp \in {"", "oc"}, ms \in {<<M1>>, <<M1, M2>>, <<M3, M4, M5>>}}
-CmdsMix == {Cm("", FALSE, "", <<M1>>), Cm("Other", FALSE, "oc", <<M2>>)}
+            \cup {CmO(n[1], n[2], "", <<M1>>) : n \in CmdNames}
+CmdsMix == {Cm("", FALSE, "", <<M1>>), Cm("Other", FALSE, "oc", <<M2>>), CmO("Admin", FALSE, "", <<M1>>)}
 
 Su(n, fs) == [name |-> n, fields |-> fs]
 SummariesFull == {Su(n, fs) : n \in {<<>>, <<"short">>, <<"full", "view">>}, fs \in {<<>>, <<"string">>, <<"key:id62", "object-inline">>}}
